@@ -98,6 +98,10 @@ def run(ctx):
     _packers(ctx)
     run_pad_rule(ctx)
     run_order_rule(ctx)
+    ctx.clause("C11.10 the run headers of the hybrid encoding and the DELTA headers are LEB128 on both sides (values on either side of every 7-bit boundary)")
+    from ..rules import varint
+    nvw, nvr = varint.check(ctx, files=("src/encoding/rle.c", "src/encoding/delta.c", "src/core/endian.h"))
+    ctx.floor("C11 varint writers and readers", nvw + nvr, 6)
     ctx.clause("C11.9 the dictionary encoders give every input the index of the slot that holds its value; the dictionary is the distinct values in first-occurrence order")
     from ..rules import dictbuild
     ndb = dictbuild.check(ctx)
